@@ -15,7 +15,7 @@ import re
 import shutil
 import tempfile
 
-from ..agp_drv import FnProblem, SolverRun, objective_zoo, rand_box_solver, snapshot_solution
+from ..agp_drv import LISTENER_SHAPES, FnProblem, SolverRun, objective_zoo, rand_box_solver, snapshot_solution
 from ..common import finish, q, report
 from ..pairs import Pairs
 from ..solver_tv import FAMILY, other_clause_failures, report_failures, validate_runs
@@ -34,6 +34,12 @@ def shipped_listeners(n, tmp, rng):
     out = []
     for mode in ("full", "custom", "result"):
         out.append(("console:" + mode, lambda mode=mode: ConsoleFullOutputListener(mode=mode, iters=rng.choice([1, 3, 100]))))
+
+    class QuietConsole(ConsoleFullOutputListener):
+        """a user's subclass of a shipped listener that changes the constructor only"""
+        def __init__(self):
+            super().__init__(mode="result")
+    out.append(("console-subclass:result", QuietConsole))
     for mode in ("objective function", "only points", "approximation", "interpolation"):
         for bottom in (False, True):
             out.append(("static:%s%s" % (mode, ":bottom" if bottom else ""),
@@ -126,7 +132,7 @@ def run(ctx):
 
         # (1) every subset of overridden callbacks x batching x N  (a listener derived from the base class)
         for n in (1, 2, 3):
-            for sub in SUBSETS:
+            for si, sub in enumerate(SUBSETS):
                 prob = problem(n)
                 r_, eps, limit, m = scen.rand_params(rng, n)
                 ref = None
@@ -134,7 +140,7 @@ def run(ctx):
                     if qk and pi not in (1, 3) and sub not in ((), ("before", "enditer", "stop")):
                         continue
                     run = SolverRun(prob, r=r_, eps=eps, limit=limit, m=m, tag="%s/subset=%s" % (prob.name, "+".join(sub) or "none"), cbs=sub,
-                                    full_snap=False, refine=rng.random() < 0.2)
+                                    full_snap=False, refine=rng.random() < 0.2, lshape=LISTENER_SHAPES[(si + pi + n) % len(LISTENER_SHAPES)])
                     refrun = SolverRun(prob, r=r_, eps=eps, limit=limit, m=m, tag=prob.name + "/no-listener", listener="none", full_snap=False,
                                        refine=run.params.refineSolution)
                     drive(run, pat)
